@@ -35,26 +35,28 @@ type roundTrip struct {
 	fn     string // escaper (line protocol name)
 	decode func(out string) (string, bool)
 	expect func(s string) string
+	// texts that may follow the slot: decode(out+rest) must be expect(s)+decode(rest)
+	rests []string
 }
 
 func ident(s string) string { return s }
 
 var roundTrips = []roundTrip{
-	{"html-roundtrip", "htmlEscape", func(o string) (string, bool) { return html.UnescapeString(o), true }, ident},
-	{"attr-quoted-roundtrip", "attributeEscape.tt", func(o string) (string, bool) { return html.UnescapeString(o), true }, ident},
-	{"attr-unquoted-roundtrip", "attributeEscape.tf", func(o string) (string, bool) { return html.UnescapeString(o), true }, ident},
+	{"html-roundtrip", "htmlEscape", func(o string) (string, bool) { return html.UnescapeString(o), true }, ident, []string{"amp;", "#38;", "lt", ";"}},
+	{"attr-quoted-roundtrip", "attributeEscape.tt", func(o string) (string, bool) { return html.UnescapeString(o), true }, ident, []string{"amp;", "#38;"}},
+	{"attr-unquoted-roundtrip", "attributeEscape.tf", func(o string) (string, bool) { return html.UnescapeString(o), true }, ident, []string{"amp;", "#38;"}},
 	// strconv.Unquote and encoding/json work on code points: invalid bytes of s come back as U+FFFD
 	{"js-roundtrip", "jsStringEscape", func(o string) (string, bool) {
 		if utf8.ValidString(o) {
 			return jsUnquote(o)
 		}
 		return jsUnquote(toValid(o))
-	}, toValid},
-	{"json-roundtrip", "jsonStringEscape", func(o string) (string, bool) { return jsonUnquote(toValid(o)) }, toValid},
+	}, toValid, []string{"0", "u0041", "n", "\\\\"}},
+	{"json-roundtrip", "jsonStringEscape", func(o string) (string, bool) { return jsonUnquote(toValid(o)) }, toValid, []string{"0", "u0041", "n"}},
 	// a NUL cannot be written in CSS: \0 is U+FFFD
 	{"css-roundtrip", "cssStringEscape", func(o string) (string, bool) { return cssUnescape(o), true },
-		func(s string) string { return strings.ReplaceAll(s, "\x00", "�") }},
-	{"query-roundtrip", "queryEscape", func(o string) (string, bool) { s, err := url.QueryUnescape(o); return s, err == nil }, ident},
+		func(s string) string { return strings.ReplaceAll(s, "\x00", "�") }, []string{"c", " c", "0", " ", "\n", "g", "\\\\"}},
+	{"query-roundtrip", "queryEscape", func(o string) (string, bool) { s, err := url.QueryUnescape(o); return s, err == nil }, ident, []string{"41", "4", "%41"}},
 }
 
 func escaperByFn(fn string) escaper {
@@ -76,7 +78,9 @@ type slotTemplate struct {
 	decode func(slot string) (string, bool)
 	expect func(s string) string
 	// escaper whose output the slot must equal ("" = not compared)
-	fn   string
+	fn string
+	// the first bytes of suf that are decoded together with the slot
+	rest string
 	tmpl *scriggo.Template
 }
 
@@ -108,6 +112,17 @@ var slotTemplates = []*slotTemplate{
 	{sig: "css-roundtrip", file: "t.css", pre: `a::before{content:'`, suf: `'}`, fn: "cssStringEscape",
 		decode: func(o string) (string, bool) { return cssUnescape(o), true },
 		expect: func(s string) string { return strings.ReplaceAll(s, "\x00", "�") }},
+	// text right after the slot that a decoder could take for part of an escape
+	{sig: "css-roundtrip", file: "t.html", pre: `<style>a::before{content:"`, suf: `c"}</style>`, fn: "cssStringEscape", rest: "c",
+		decode: func(o string) (string, bool) { return cssUnescape(o), true },
+		expect: func(s string) string { return strings.ReplaceAll(s, "\x00", "�") }},
+	{sig: "css-roundtrip", file: "t.css", pre: `a::before{content:'`, suf: ` 0'}`, fn: "cssStringEscape", rest: " 0",
+		decode: func(o string) (string, bool) { return cssUnescape(o), true },
+		expect: func(s string) string { return strings.ReplaceAll(s, "\x00", "�") }},
+	{sig: "html-roundtrip", file: "t.html", pre: "<p>", suf: "amp;</p>", fn: "htmlEscape", rest: "amp;",
+		decode: func(o string) (string, bool) { return html.UnescapeString(o), true }, expect: ident},
+	{sig: "js-roundtrip", file: "t.js", pre: `var x = "`, suf: `u0041";`, fn: "jsStringEscape", rest: "u0041",
+		decode: func(o string) (string, bool) { return jsUnquote(toValid(o)) }, expect: toValid},
 	{sig: "query-roundtrip", file: "t.html", pre: `<a href="?q=`, suf: `">x</a>`, fn: "queryEscape", decode: qunescape, expect: ident},
 	{sig: "query-roundtrip", file: "t.html", pre: `<a href="/p?a=1&amp;q=`, suf: `&amp;z=2">x</a>`, fn: "queryEscape", decode: qunescape, expect: ident},
 }
@@ -153,13 +168,21 @@ func registerSweep() {
 			}
 		}
 		samples := 0
+		// which generator produced the input ("" = the fixed corpus); part of every failure record
+		gen := ""
+		fail := func(sig string, det map[string]string) {
+			if gen != "" {
+				det["generator"] = gen
+			}
+			c.Fail(sig, det)
+		}
 		checkEscapers := func(s string) {
 			for _, rt := range roundTrips {
 				e := escaperByFn(rt.fn)
 				c.Count("evaluations")
 				chunks, n, p := e.run(s)
 				if p != "" {
-					c.Fail("panic", map[string]string{"fn": rt.fn, "in": Hx(s), "panic": p})
+					fail("panic", map[string]string{"fn": rt.fn, "in": Hx(s), "panic": p})
 					continue
 				}
 				out := strings.Join(chunks, "")
@@ -168,12 +191,25 @@ func registerSweep() {
 				}
 				dec, ok := rt.decode(out)
 				if !ok {
-					c.Fail(rt.sig, map[string]string{"fn": rt.fn, "in": Hx(s), "out": Hx(out), "why": "the standard decoder rejects the output"})
+					fail(rt.sig, map[string]string{"fn": rt.fn, "in": Hx(s), "out": Hx(out), "why": "the standard decoder rejects the output"})
 					continue
 				}
 				if dec != rt.expect(s) {
-					c.Fail(rt.sig, map[string]string{"fn": rt.fn, "in": Hx(s), "out": Hx(out), "decoded": Hx(dec)})
+					det := map[string]string{"fn": rt.fn, "in": Hx(s), "out": Hx(out), "decoded": Hx(dec)}
+					if rt.fn == "cssStringEscape" && strings.Contains(s, "\x00") {
+						det["note"] = "the input contains NUL, which CSS can only write as U+FFFD: expected " + Hx(rt.expect(s))
+					}
+					fail(rt.sig, det)
 					continue
+				}
+				for _, rest := range rt.rests {
+					c.Count("evaluations")
+					d1, ok1 := rt.decode(out + rest)
+					d2, ok2 := rt.decode(rest)
+					if ok2 && (!ok1 || d1 != rt.expect(s)+d2) {
+						fail(rt.sig, map[string]string{"fn": rt.fn, "in": Hx(s), "out": Hx(out), "followed-by": Hx(rest), "decoded": Hx(d1)})
+						break
+					}
 				}
 				if out != s {
 					c.Count("nontrivial")
@@ -189,7 +225,7 @@ func registerSweep() {
 				chunks, n, p := e.run(s)
 				c.Count("evaluations")
 				if p != "" {
-					c.Fail("panic", map[string]string{"fn": fn, "in": Hx(s), "panic": p})
+					fail("panic", map[string]string{"fn": fn, "in": Hx(s), "panic": p})
 				} else if out := strings.Join(chunks, ""); n != len(out) {
 					c.Fail("count-mismatch", map[string]any{"fn": fn, "in": Hx(s), "out": Hx(out), "n": n})
 				}
@@ -201,19 +237,19 @@ func registerSweep() {
 				c.Count("template-runs")
 				slot, whole, err := t.render(s)
 				if err != nil {
-					c.Fail(t.sig, map[string]string{"template": t.pre + "{{ s }}" + t.suf, "in": Hx(s), "rendered": Hx(whole), "why": err.Error()})
+					fail(t.sig, map[string]string{"template": t.pre + "{{ s }}" + t.suf, "in": Hx(s), "rendered": Hx(whole), "why": err.Error()})
 					continue
 				}
 				if t.fn != "" {
 					chunks, _, _ := escaperByFn(t.fn).run(s)
 					if want := strings.Join(chunks, ""); want != slot {
-						c.Fail("glue-differs", map[string]string{"template": t.pre + "{{ s }}" + t.suf, "in": Hx(s), "slot": Hx(slot), "escaper": t.fn, "escaper-output": Hx(want)})
+						fail("glue-differs", map[string]string{"template": t.pre + "{{ s }}" + t.suf, "in": Hx(s), "slot": Hx(slot), "escaper": t.fn, "escaper-output": Hx(want)})
 						continue
 					}
 				}
-				dec, ok := t.decode(slot)
-				if !ok || dec != t.expect(s) {
-					c.Fail(t.sig, map[string]string{"template": t.pre + "{{ s }}" + t.suf, "in": Hx(s), "slot": Hx(slot), "decoded": Hx(dec)})
+				dec, ok := t.decode(slot + t.rest)
+				if dr, _ := t.decode(t.rest); !ok || dec != t.expect(s)+dr {
+					fail(t.sig, map[string]string{"template": t.pre + "{{ s }}" + t.suf, "in": Hx(s), "slot": Hx(slot), "decoded": Hx(dec)})
 					continue
 				}
 				if slot != s {
@@ -225,7 +261,7 @@ func registerSweep() {
 			c.Count("template-runs")
 			_, whole, err := jsonDoc.render(s)
 			if err != nil {
-				c.Fail("json-roundtrip", map[string]string{"template": "t.json", "in": Hx(s), "rendered": Hx(whole), "why": err.Error()})
+				fail("json-roundtrip", map[string]string{"template": "t.json", "in": Hx(s), "rendered": Hx(whole), "why": err.Error()})
 				return
 			}
 			var doc struct {
@@ -233,7 +269,7 @@ func registerSweep() {
 				N int
 			}
 			if err := json.Unmarshal([]byte(toValid(whole)), &doc); err != nil || doc.K != toValid(s) || doc.N != 1 {
-				c.Fail("json-roundtrip", map[string]string{"template": "t.json", "in": Hx(s), "rendered": Hx(whole), "decoded": Hx(doc.K), "why": fmt.Sprint(err)})
+				fail("json-roundtrip", map[string]string{"template": "t.json", "in": Hx(s), "rendered": Hx(whole), "decoded": Hx(doc.K), "why": fmt.Sprint(err)})
 			}
 		}
 		if s, ok := replayString(c, "in"); ok {
@@ -243,6 +279,10 @@ func registerSweep() {
 		}
 		// escapers: dictionary x successors, short exhaustive strings over the union alphabet, random
 		all := func(s string) { checkEscapers(s); checkTemplates(s) }
+		for _, s := range extraStrings {
+			all(s)
+		}
+		gen = "dictionary x following byte"
 		// templates: successors below '@', letters that matter to some decoder and a sample of high bytes (every successor in the thorough tier)
 		DictTimesSuccessors(func(s string) {
 			checkEscapers(s)
@@ -250,14 +290,13 @@ func registerSweep() {
 				checkTemplates(s)
 			}
 		})
-		for _, s := range extraStrings {
-			all(s)
-		}
 		maxLen := 3
 		if c.Thorough() {
 			maxLen = 4
 		}
+		gen = "exhaustive short strings"
 		EnumStrings([]byte{'<', '&', '"', '\'', '\\', ' ', 'c', 'g', '\n', 0xE2, 0x80, 0xA8, '%', '+', '=', 0xC3}, maxLen, checkEscapers)
+		gen = "seeded random"
 		for i := 0; i < c.N; i++ {
 			s := RandString(c.Rng, 30)
 			checkEscapers(s)
